@@ -165,10 +165,12 @@ func genStream() *rapid.Generator[hold[stream]] {
 			}
 		}
 		sort.Ints(s.Cuts)
-		for range s.Cuts {
+		for i := range s.Cuts {
 			g := 0
 			if s.Mode != "one-byte" {
 				g = rapid.SampledFrom([]int{0, 0, 0, 1, 2}).Draw(t, "gapMs")
+			} else if i < 10 {
+				g = 1 // the first bytes really arrive one per read (protocol detection sees every growing prefix)
 			}
 			s.Gaps = append(s.Gaps, g)
 		}
